@@ -52,7 +52,8 @@ GridFails(r, ep, j) ==
   LET t0 == IF Fresh(r) THEN "0" ELSE ep.time[r.first - 1]
       m  == IF Fresh(r) THEN j - 1 ELSE j - r.first + 1
       exp == RAdd(t0, RMul(RFromInt(m), r.dt)) IN
-  Failing({ <<"GridInstant", RIsNum(ep.time[j]) /\ Cl(ep.time[j], exp, Eps, r.dt)>>,
+  \* tolerance: a fraction of the step plus the floating-point resolution of the instant itself
+  Failing({ <<"GridInstant", RIsNum(ep.time[j]) /\ RLe(RAbs(RSub(ep.time[j], exp)), RAdd(RMul(Eps, r.dt), RMul("1e-14", RAbs(exp))))>>,
             <<"GridNotBeyondT", j <= ExpectedLast(r)>> })
 
 (* ---- C14 / C15: control at instant j of run r ---- *)
@@ -153,7 +154,7 @@ InstFails(r, ep, j, held) ==
       first == j = r.first
       hasPrev == j > 1
       P == IF hasPrev THEN Inst(ep, j - 1) ELSE X
-      dt == IF hasPrev THEN RSub(ep.time[j], ep.time[j - 1]) ELSE r.dt
+      dt == r.dt      \* the step the run was given (the spacing of the recorded axis is GridInstant's business)
       pwmF == IF first THEN r.pwm_before ELSE P.pwm IN
   IF ~CoreNums(X) \/ (hasPrev /\ ~CoreNums(P)) \/ ~RIsNum(pwmF) THEN {"NonFiniteSample"}
   ELSE GridFails(r, ep, j)
@@ -176,7 +177,7 @@ LockCands(r, ep, j, prevLk) ==
   LET first == j = r.first
       hasPrev == j > 1
       P == IF hasPrev THEN Inst(ep, j - 1) ELSE Inst(ep, j)
-      dt == IF hasPrev THEN RSub(ep.time[j], ep.time[j - 1]) ELSE r.dt
+      dt == r.dt      \* the step the run was given (the spacing of the recorded axis is GridInstant's business)
       pwmF == IF first THEN r.pwm_before ELSE P.pwm
       tqF == IF first THEN r.tq_before ELSE P.el[1].T
       wN == IF hasPrev THEN AdvSpd(Ch, P, dt) ELSE r.pre_live[N(Ch)].angular_speed
